@@ -375,11 +375,14 @@ class LoopSpec:
 
 
 class Module:
-    def __init__(self, interp, path, name):
+    def __init__(self, interp, path, name, source=None):
         self.path = path
         self.name = name
-        with open(path, encoding="utf-8") as fh:
-            self.source = fh.read()
+        if source is not None:
+            self.source = source  # text extracted mechanically from the real file at `path` (mdvc/decython.py)
+        else:
+            with open(path, encoding="utf-8") as fh:
+                self.source = fh.read()
         self.tree = ast.parse(self.source, filename=path)
         self.globals = {"__name__": name, "__file__": path}
         self.interp = interp
@@ -468,6 +471,16 @@ class Interp:
             except (Unsupported, PyExc) as e:
                 for n in _assigned_names(st):
                     m.globals[n] = Unavailable(f"{type(e).__name__}: {e}")
+        return m
+
+    def load_source(self, name, source, path):
+        """load a module from text (used for Python extracted mechanically from a .pxi file)"""
+        m = Module(self, path, name, source=source)
+        self.modules[name] = m
+        env = Env(None, m.globals)
+        env.vars = m.globals
+        for st in m.tree.body:
+            self.exec_stmt(st, env, m, qual="")
         return m
 
     def resolve_import(self, dotted, module):
